@@ -123,12 +123,25 @@ verus_unit(
             (r"word\.into\(\)", "word.w2s()", 1),
             (r"Ok\(Self \{\s*bulk: data,\s*state,\s*phantom: PhantomData,\s*\}\)", "Ok(AnsCoder { bulk: data, state })", 1),
         ]),
+        "READ_INITIAL_STATE": dict(file="src/stream/stack.rs", anchor="impl<Word, State, Backend> AnsCoder<Word, State, Backend>", fn="read_initial_state", extra=[
+            (r"read_word\(\)\.map_err\(\|_\| \(\)\)\?", "compressed.read()?", 2),
+            (r"let mut state = first_word\.into\(\);", "proof { lemma_first_word(data0); }\n            let mut state = first_word.w2s();", 1),
+            # R16: `while let Some(x) = e { body }` -> its desugaring, plus the ghost-only loop contract
+            (r"while let Some\(word\) = compressed\.read\(\)\? \{",
+             "loop\n                invariant_except_break state < @TH@,\n                invariant STATE_BITS >= 2 * WORD_BITS, (1 as State) << (STATE_BITS - WORD_BITS) == @TH@, state >= 1, bigv(compressed@, state) == bigv(data0, 0), compressed@.len() <= data0.len(), compressed@ == data0.subrange(0, compressed@.len() as int),\n"
+             "                ensures state >= @TH@ || compressed@.len() == 0,\n                decreases compressed@.len()\n            {\n"
+             "                proof { if compressed@.len() > 0 { lemma_from_binary_step(compressed@, state); assert(compressed@.drop_last() =~= data0.subrange(0, compressed@.len() - 1)); } }\n"
+             "                let o__ = compressed.read()?; if o__.is_none() { break; } let word = o__.unwrap();", 1),
+            (r"word\.into\(\)", "word.w2s()", 1),
+        ]),
         "APOS": dict(file="src/stream/stack.rs", anchor="Pos for AnsCoder<Word, State, Backend>", fn="pos", extra=[]),
         "ASEEK": dict(file="src/stream/stack.rs", anchor="Seek for AnsCoder<Word, State, Backend>", fn="seek", extra=[]),
     },
     obligations={
         "from_binary": dict(own=["C04", "C01"], dep=["C18", "C12"], kani_twin="ans_io::u8_u32::binary_roundtrip",
                             text="ensures (data of ANY length, all widths): the coder denotes exactly marker ++ data (state * W^|bulk| + le(bulk) == W^|data| + le(data)); head >= 2^(SB-WB) unless the bulk is empty; remaining bulk is a prefix of the data"),
+        "read_initial_state": dict(own=["C01"], dep=["C18"], kani_twin="ans_io::u8_u16::import_any",
+                                   text="ensures (data of ANY length): Err iff the data ends in a zero word; Ok(head) => (head, remaining words) denotes exactly the data, head >= 2^(SB-WB) unless nothing remains, head == 0 iff the data is empty"),
         "pos": dict(own=["C07"], dep=[], text="ensures: (number of words on the stack, head state)"),
         "seek": dict(own=["C07"], dep=[], text="ensures: Err iff pos > len; else the coder's view is (first pos words, given state)"),
         "thm_seek_restores_snapshot": dict(own=["C07"], dep=[], text="encoding only pushes, so a snapshot's words stay a prefix of the finished data and seek restores the snapshot's view exactly"),
